@@ -138,3 +138,101 @@ Proof.
     apply (Canon_not_file_drive hp hpo hd). apply ReachC3_Canon. exact (RC3_qpm u ops u' Hr Hops Hs Hb).
 Qed.
 End ReachC3.
+
+(* ================= host_nonempty is met by the host model, for every IDNA function ================= *)
+Lemma enc_utf8_nil_inv S x : encode S (utf8_encode x) = [] -> x = [].
+Proof.
+  destruct x as [|c r]; [reflexivity|]. unfold utf8_encode. cbn [flat_map]. unfold utf8_encode1.
+  destruct (c <? 128); [|destruct (c <? 2048); [|destruct (c <? 65536)]]; cbn [app]; unfold encode; cbn [flat_map];
+    match goal with |- context [if ?b then _ else _] => destruct b end; unfold enc_byte_spec; cbn [app]; discriminate.
+Qed.
+
+Lemma host_nonempty_model idna : host_nonempty (host_parse idna) host_parse_opaque.
+Proof.
+  split.
+  - intros s H. unfold host_parse, host_parse_x in H.
+    destruct (Host.starts_with 91 s).
+    + unfold bracketed in H. destruct (negb (ends_with 93 s)); [discriminate H|].
+      destruct (parse_ipv6addr (utf8_encode (removelast (tl s)))); cbn [xr_map xr_result] in H; discriminate H.
+    + destruct (idna (decode (utf8_encode s))) as [[|c d]|]; [discriminate H | | discriminate H].
+      destruct (ends_in_a_number (c :: d)); [|discriminate H].
+      destruct (parse_ipv4addr (c :: d)); cbn [xr_map xr_result] in H; discriminate H.
+  - intros s Hu H. unfold host_parse_opaque, host_parse_opaque_x in H.
+    destruct (Host.starts_with 91 s).
+    + unfold bracketed in H. destruct (negb (ends_with 93 s)); [discriminate H|].
+      destruct (parse_ipv6addr (utf8_encode (removelast (tl s)))); cbn [xr_map xr_result] in H; discriminate H.
+    + destruct (existsb is_invalid_host_char s); [discriminate H|]. cbn [xr_result] in H.
+      assert (pe_display T_CONTROLS (utf8_encode s) = []) as E by congruence.
+      rewrite pe_display_utf8 in E by exact Hu. exact (enc_utf8_nil_inv _ _ E).
+Qed.
+
+(* the theorem for the parser model linked with the host model: the only premise about hosts is IdnaOK *)
+Theorem reach_partial3_model dbg idna : IdnaOK idna -> forall u,
+  ReachC3 dbg (host_parse idna) host_parse_opaque host_display u ->
+  Fixpoint_of_reparse dbg (host_parse idna) host_parse_opaque host_display u /\ wf_b u = true /\ ascii (ser u).
+Proof. intros OK u. exact (reach_partial3 dbg _ _ _ (HostOK2_model idna OK) (host_nonempty_model idna) u). Qed.
+
+(* ================= non-vacuity, on the host model (idna_clean) ================= *)
+Definition mhp := host_parse idna_clean.
+Definition m_hist (start : string) (ops : list op) : option url :=
+  match parse_url true mhp host_parse_opaque host_display None None (B start) with
+  | POk u => fold_left (fun acc o => match acc with Some v => apply_op true mhp host_parse_opaque host_display v o | None => None end) ops (Some u)
+  | _ => None
+  end.
+Definition m_fix (u : url) : bool :=
+  match parse_url true mhp host_parse_opaque host_display None None (utf8_lossy (ser u)) with POk v => url_eqb v u | _ => false end.
+
+(* http://u@h.x:443/a?q#f -> set_scheme("https") [port 443 becomes the default and is dropped] -> set_host("example.org:99")
+   [the port part is ignored] -> set_path("b c/../d?e") -> set_ip_host(127.0.0.1) -> quirks pathname("x") ;
+   a:/p -> set_host("h") = a://h/p -> set_scheme("b") -> set_ip_host([::1]) ; each record is a fixpoint *)
+Example reach3_example :
+  match m_hist "http://u@h.x:443/a?q#f" [OSetScheme (B "https")] with
+  | Some u => list_eqb (ser u) (B "https://u@h.x/a?q#f") && m_fix u | None => false end = true
+  /\ match m_hist "http://u@h.x:443/a?q#f" [OSetScheme (B "https"); OSetHost (Some (B "example.org:99"))] with
+     | Some u => list_eqb (ser u) (B "https://u@example.org/a?q#f") && m_fix u | None => false end = true
+  /\ match m_hist "http://u@h.x:443/a?q#f" [OSetScheme (B "https"); OSetHost (Some (B "example.org:99")); OSetPath (B "b c/../d?e")] with
+     | Some u => list_eqb (ser u) (B "https://u@example.org/d%3Fe?q#f") && m_fix u | None => false end = true
+  /\ match m_hist "http://u@h.x:443/a?q#f" [OSetScheme (B "https"); OSetHost (Some (B "example.org:99")); OSetPath (B "b c/../d?e");
+                                            OSetIpHost (HIpv4 2130706433); OQPathname (B "x")] with
+     | Some u => list_eqb (ser u) (B "https://u@127.0.0.1/x?q#f") && m_fix u | None => false end = true
+  /\ match m_hist "a:/p" [OSetHost (Some (B "h")); OSetScheme (B "b"); OSetIpHost (HIpv6 [0;0;0;0;0;0;0;1])] with
+     | Some u => list_eqb (ser u) (B "b://[::1]/p") && m_fix u | None => false end = true.
+Proof. vm_compute. repeat split. Qed.
+
+(* ================= C02_statement3 / C02_statement are false as stated ================= *)
+(* F-C07-8 inside C02: a://:pw@h/p -> quirks::set_host("") = a://:pw@/p (quirks::set_host refuses an empty host when
+   the URL has a username or a port, but does not look at the password; quirks::set_hostname does).  The step is outside
+   known_step2, the result is not a file URL, and its serialization does not parse (EmptyHost). *)
+Definition w10_dummy : url := mkUrl [] 0 0 0 0 HI_None None 0 None None.
+Definition w10_input : list N := B "a://:pw@h/p"%string.
+Definition w10_op : op := OQHost [].
+Definition w10_u0 : url :=
+  match parse_url true mhp host_parse_opaque host_display None None w10_input with POk u => u | _ => w10_dummy end.
+Definition w10_u1 : url :=
+  match apply_op true mhp host_parse_opaque host_display w10_u0 w10_op with Some u => u | None => w10_dummy end.
+
+Lemma w10_facts :
+  parse_url true mhp host_parse_opaque host_display None None w10_input = POk w10_u0
+  /\ Known_file_drive w10_u0 = false
+  /\ known_step2 true mhp host_parse_opaque host_display w10_u0 w10_op = false
+  /\ apply_op true mhp host_parse_opaque host_display w10_u0 w10_op = Some w10_u1
+  /\ Known_file_drive w10_u1 = false
+  /\ list_eqb (ser w10_u1) (B "a://:pw@/p") = true
+  /\ match reparse true mhp host_parse_opaque host_display w10_u1 with PErr EmptyHost => true | _ => false end = true.
+Proof. vm_compute. repeat split; reflexivity. Qed.
+
+Lemma w10_input_usv : usv_list w10_input.
+Proof. apply Forall_forall. intros c Hc. vm_compute in Hc. unfold is_usv. repeat (destruct Hc as [<-|Hc]; [lia|]). destruct Hc. Qed.
+
+Theorem statement_refuted : ~ C02_statement.
+Proof.
+  intros H. destruct w10_facts as (E0 & K0 & KS & E1 & K1 & _ & R).
+  assert (R1 : Reachable2 true mhp host_parse_opaque host_display w10_u1).
+  { eapply R2_step; [eapply R2_parse; [exact w10_input_usv | exact E0 | exact K0] | | exact KS | exact E1 | exact K1].
+    constructor. }
+  pose proof (H true mhp host_parse_opaque host_display HostOK2_inhabited w10_u1 R1) as F. unfold Fixpoint_of_reparse in F.
+  rewrite F in R. discriminate R.
+Qed.
+
+Theorem statement3_refuted : ~ C02_statement3.
+Proof. intros H. exact (statement_refuted (statement3_implies_2 H)). Qed.
